@@ -30,8 +30,9 @@ fn run_perturbed(ctx: &Ctx, l: &mut Local) {
         }
     }
     let jobs: Vec<Value> = cases.iter().map(|c| c.job()).collect();
-    let res = run_jobs("opt", &jobs, 3, &|_| 600.0).unwrap_or_default();
+    let res = crate::props::c04::run_chunked(&jobs, 3, crate::props::c04::WATCHDOG_S, l);
     for ((c, r), &i) in cases.iter().zip(res.iter()).zip(idx.iter()) {
+        let Some(r) = r else { continue };
         let o = Outcome::from_job(r);
         l.case();
         l.label("perturbed-run");
